@@ -61,6 +61,8 @@ type label struct {
 	Toks   []tok    `json:"toks"`
 	Before []string `json:"before"`
 	Must   []string `json:"must"`
+	// once handles used by this step: a handle not yet in the context's document renders its content now
+	MustBody []string `json:"mustbody"`
 	Tags   []string `json:"tags"`
 	Viol   []string `json:"viol"`
 	// uses: how many times WithNonce has been applied to the context so far (0 = none); SetNonce: the index it sets
@@ -131,6 +133,11 @@ func newWorld(name string, reg []string) *world {
 	w.handles["h1"] = templ.NewOnceHandle()
 	w.handles["h2"] = templ.NewOnceHandle()
 	w.handles["g1"] = templ.NewOnceHandle(templ.WithComponent(fixedBody("g1")))
+	// zero-value handles: OnceHandle is an exported struct whose zero value is usable; every such handle has id 0,
+	// distinct variables are distinct handles
+	var z1 templ.OnceHandle
+	w.handles["z1"] = &z1
+	w.handles["z2"] = new(templ.OnceHandle)
 	var regClasses []templ.CSSClass
 	for _, k := range reg {
 		regClasses = append(regClasses, w.classes[k])
@@ -501,7 +508,7 @@ func (w *world) rules(txt, kind string) ([]tok, error) {
 }
 
 // violations evaluates the step properties of C12 on real tokens.
-func violations(toks []tok, before, must []string, mode string, reg []string) []string {
+func violations(toks []tok, before, must, mustBody []string, mode string, reg []string) []string {
 	has := func(xs []string, x string) bool {
 		for _, v := range xs {
 			if v == x {
@@ -536,6 +543,19 @@ func violations(toks []tok, before, must []string, mode string, reg []string) []
 		case "use":
 			if !has(before, t.X) && !earlier(tok{"def", t.X}) && !(mode == "mw" && has(reg, t.X)) {
 				add("DefBeforeFirstUse")
+			}
+		}
+	}
+	for _, h := range mustBody {
+		if !has(before, h) {
+			found := false
+			for _, t := range toks {
+				if t == (tok{"body", h}) {
+					found = true
+				}
+			}
+			if !found {
+				add("DefBeforeFirstUse") // first use of the handle in this document, but its content is not emitted
 			}
 		}
 	}
@@ -672,7 +692,7 @@ func (r *runner) withoutNonce(modes []string, labels []label, l label, nest int)
 	if err != nil {
 		return nil, false
 	}
-	return violations(ts, l.Before, l.Must, mode, r.w.reg), true
+	return violations(ts, l.Before, l.Must, l.MustBody, mode, r.w.reg), true
 }
 
 // replay runs a history (path) and then checks the last label against the real code.
@@ -759,7 +779,7 @@ func (r *runner) check(ctxs map[string]*rctx, modes []string, hist []string, lab
 		}
 		return real == spec
 	}
-	viol := violations(ts, l.Before, l.Must, mode, r.w.reg)
+	viol := violations(ts, l.Before, l.Must, l.MustBody, mode, r.w.reg)
 	rep.Viol = viol
 	switch {
 	case len(viol) > 0 && real == spec && len(l.Tags) > 0:
